@@ -350,6 +350,59 @@ def runG {σ : Type} [OfNat τ 0] (d : τ → σ → St τ → Option Nat × σ)
 def decideT (tr : Nat → List (Trans τ)) (_ : τ) (_ : Unit) (s1 : St τ) : Option Nat × Unit :=
   ((firstTrans s1 (tr s1.active)).map (·.far), ())
 
+/-! ## plain auxiliaries nested inside the timed framer (`aux pa` in frame `main`)
+
+`Frame.enter` of the main frame runs `aux.enterAll()` (the auxiliary's clocks restart: `enter now 0`),
+`Framer.segue` of the timed framer first runs `frame.segueAuxes()` for every active frame — the auxiliary's own
+`segue` with its own clocks — and only then the framer's transitions; `Frame.exit` of the main frame runs
+`aux.exitAll()`.  The auxiliary never touches the timed framer's clocks, and the timed framer's decision does
+not look at the auxiliary. -/
+
+structure PAux (τ : Type) where
+  main : Nat                      -- the frame that carries `aux pa`
+  frames : List (RFrame τ)        -- the auxiliary framer's frames
+deriving Repr
+
+/-- `Framer.ExEn(nears, far)`: the frames to exit (counterpart of `entersOf`) -/
+def exitsOf : List Nat → List Nat → Nat → List Nat
+  | n :: ns, f :: fs, far => if n = far ∨ n ≠ f then n :: ns else exitsOf ns fs far
+  | _, _, _ => []
+
+/-- the auxiliary after the timed framer's decision `d` of this tick: restarted when its main frame is
+entered (re-entry `go me` included), gone when the main frame is exited and not entered, else as its own
+segue left it.  The state is its last observation (`none` = not active). -/
+def auxAfter [OfNat τ 0] (fr : List (RFrame τ)) (pa : PAux τ) (now : τ) (active : Nat) (d : Option Nat)
+    (x1 : Option (Obs τ)) : Option (Obs τ) :=
+  match d with
+  | none => x1
+  | some far =>
+    if (entersOf (outline fr active) (outline fr far) far).contains pa.main then
+      some ⟨now, none, none, true, enter now 0⟩
+    else if (exitsOf (outline fr active) (outline fr far) far).contains pa.main then none
+    else x1
+
+/-- one tick of the timed framer with a plain auxiliary: the auxiliary segues first, then the framer's
+own transitions (exactly `decideT`) -/
+def decideP [OfNat τ 0] (fr : List (RFrame τ)) (pa : PAux τ) (now : τ) (x : Option (Obs τ)) (s1 : St τ) :
+    Option Nat × Option (Obs τ) :=
+  let x1 := x.map (fun o => segue (transOf pa.frames) now o.after)
+  let d := (firstTrans s1 (transOf fr s1.active)).map (·.far)
+  (d, auxAfter fr pa now s1.active d x1)
+
+/-- the run showing both framers per tick -/
+def runFromP [OfNat τ 0] (fr : List (RFrame τ)) (pa : PAux τ) (s : St τ) (x : Option (Obs τ)) :
+    List τ → List (Obs τ × Option (Obs τ))
+  | [] => []
+  | now :: rest => let r := segueG (decideP fr pa) now s x; r :: runFromP fr pa r.1.after r.2 rest
+
+def runP [OfNat τ 0] (fr : List (RFrame τ)) (pa : PAux τ) : List τ → List (Obs τ × Option (Obs τ))
+  | [] => []
+  | now :: rest =>
+    let s0 := enter now 0
+    let x0 : Option (Obs τ) :=
+      if (outline fr 0).contains pa.main then some ⟨now, none, none, true, enter now 0⟩ else none
+    (⟨now, none, none, true, s0⟩, x0) :: runFromP fr pa s0 x0 rest
+
 /-- `Skedder.run`: the store stamp of tick `n` is `0 + P + … + P` (n additions, in this order) -/
 def stampAt [OfNat τ 0] (P : τ) : Nat → τ
   | 0 => 0
